@@ -46,4 +46,5 @@ revert_observe_mutability_nil_stats C02 C04 C06
 revert_log_live_entry C16
 revert_ctx_ttl_atomic C16
 revert_invalidator_check_unlocked C16
+revert_plain_expired C03
 LIST
